@@ -206,14 +206,14 @@ def r06_2(prog, tab):
     return r
 
 
-def r06_3(prog, tab):
+def r06_3(prog, tab, rid="R06.3"):
     """Every pass over the members agrees on DEFAULT elimination: in the canonical SEQUENCE/SET encoders each loop that
     looks at a member's storage (element_ptr(), or the memb_offset field) contains a default_value_cmp call, and under
     the assumption that the call answered 0 no `presence effect` is reachable before the next member: no local flag is
     set to a non-zero constant, nothing is added (+=) to a size, and no encoder is called.  (`t2m_count++` in
     SET_encode_der is a slot counter that absent members advance too, so ++ is not an effect.)"""
-    r = Rule("R06.3", "every member loop of the canonical SEQUENCE/SET encoders (presence bitmaps, extension flags, size passes) drops DEFAULT-valued members", floor=8)
-    for name in tab["default_eliminating_encoders"]:
+    r = Rule(rid, "every member loop of the canonical SEQUENCE/SET encoders (presence bitmaps, extension flags, size passes) drops DEFAULT-valued members", floor=8)
+    for name in tab["member_loop_functions"]:
         f = prog.func(name)
         if f is None:
             continue
@@ -248,12 +248,12 @@ def r06_3(prog, tab):
                     bad = ("result of default_value_cmp is not tested", ce["line"])
                     break
                 pred = subj.pred()
-                seen, st = set(), [(cb.id, ci + 1)]
+                seen, st = set(), [(cb.id, ci + 1, frozenset())]
                 while st and not bad:
-                    bid, pos = st.pop()
-                    if (bid, pos) in seen or bid not in body:
+                    bid, pos, zeros = st.pop()
+                    if (bid, pos, zeros) in seen or bid not in body:
                         continue
-                    seen.add((bid, pos))
+                    seen.add((bid, pos, zeros))
                     if bid == h and (bid, pos) != (cb.id, ci + 1):
                         continue
                     blk = f.blocks[bid]
@@ -265,7 +265,12 @@ def r06_3(prog, tab):
                             break
                         if x["k"] == "assign" and x.get("base_kind") == "local" and not x.get("deref") and x.get("lhs") == x.get("base"):
                             c = const_of(x["rhs"]["tree"]) if "rhs" in x else None
-                            if (x.get("op") == "=" and c not in (None, 0)) or x.get("op") == "+=":
+                            rv = strip_casts(x["rhs"]["tree"]) if "rhs" in x else None
+                            if c is None and is_var(rv) and rv[1] in zeros:
+                                c = 0       # a local that was set to 0 on this path (present = 0; exts_present += present)
+                            if x.get("op") == "=":
+                                zeros = (zeros | {x["base_id"]}) if c == 0 else (zeros - {x["base_id"]})
+                            if (x.get("op") == "=" and c not in (None, 0)) or (x.get("op") == "+=" and c != 0):
                                 if not x["base_id"].split("@")[0] in ("edx", "i", "n"):
                                     bad = ("`%s %s ...` is executed" % (x["lhs"], x["op"]), x["line"])
                                     break
@@ -276,11 +281,11 @@ def r06_3(prog, tab):
                         continue
                     alive = [idx for idx, s_ in enumerate(blk.succ) if s_ is not None]
                     if blk.term and "cond" in blk.term and len(blk.succ) >= 2 and blk.term["kind"] != "SwitchStmt":
-                        v = assume.eval_under(blk.term["cond"]["tree"], pred, 0)
+                        v = assume.eval_under(blk.term["cond"]["tree"], pred, 0, {(z, None): 0 for z in zeros})
                         if v is not None:
                             alive = [0] if v else [1]
                     for idx in alive:
-                        st.append((blk.succ[idx], 0))
+                        st.append((blk.succ[idx], 0, zeros))
                 if bad:
                     break
             if bad:
